@@ -90,7 +90,7 @@ type issuance struct {
 }
 
 func (e *env) newIssuance(step string, mainStep bool, kind string, a *vkit.Agent, cl *vkit.ClientSpec, t0, t1 time.Time, ts tokenSet) *issuance {
-	is := &issuance{Step: step, Main: mainStep, Kind: kind, Agent: a, Client: cl, T0: t0, T1: t1, Tokens: ts, Issuer: e.issuerOf(a), Observed: map[string]any{}}
+	is := &issuance{Step: step + e.note, Main: mainStep, Kind: kind, Agent: a, Client: cl, T0: t0, T1: t1, Tokens: ts, Issuer: e.issuerOf(a), Observed: map[string]any{}}
 	is.Keys = e.signingKeysOf()
 	if cl != nil {
 		is.ClientID, is.Skew, is.WantJWT = cl.ID, int64(cl.ClockSkewS), cl.JWTAccessToken
